@@ -366,6 +366,19 @@ theorem multi_no_lost_wakeup (old pre : List Text) (sched : List StepN) (i : Nat
   have hs := safeN_run true _ (safeN_init old pre) sched
   exact no_deadlockN _ (wakeN_run _ (safeN_init old pre) (wakeN_init old pre) sched) i ha
 
+/-- TERMINATION with several simultaneous `load()` calls (notify loops over a copy): a schedule of
+    loader / consumer steps that all change the state is never longer than `budgetN` of its start
+    state; together with `multi_no_lost_wakeup`: every maximal run completes every `load()` call. -/
+theorem multi_terminates (old pre : List Text) (sched : List StepN) :
+    let st := runN true (THn.init old pre) sched
+    ∀ more : List StepN, (∀ a ∈ more, isLoadStepN a) → effectiveN st more →
+      more.length ≤ budgetN st := by
+  intro st more hm he
+  have := sched_boundedN st (regN_run true _ (regN_init old pre) sched) more hm he
+  omega
+
+example : budgetN (runN true (THn.init ["a".toList] []) [.cstart 0, .cstart 1]) = 46 := by decide
+
 /-- the schedule of F5d: both calls drained and waiting, `_loaded` set, the final loop sets the
     first event, that call finishes and unregisters, the loop continues -/
 def f5dSchedule : List StepN :=
